@@ -881,7 +881,7 @@ func (p *Parser) followStmts(left string, lpos Pos, stops ...string) ([]*Stmt, [
 	stmts, last := p.stmtList(stops...)
 	if len(stmts) < 1 {
 		if p.lang.in(LangZsh | LangMirBSDKorn) {
-			return nil, nil // allow an empty list
+			return nil, last // allow an empty list, which may still hold comments
 		}
 		if p.recoverError() {
 			return []*Stmt{{Position: recoveredPos}}, nil
